@@ -48,7 +48,7 @@ def check_list(drv, X, fails):
 def oracle(tier, rng, seeds):
     drv = common.py_driver()
     fails, n, d = [], 0, set()
-    lists = gens.compact_inputs(tier, rng)
+    lists = gens.with_structured_orders(gens.compact_inputs(tier, rng), rng)
     for op in seeds:
         t = op.split()
         try:
